@@ -383,6 +383,15 @@ func (r *reader) initNodes(tr io.Reader) error {
 			if ent.ChunkSize == 0 && ent.Size != 0 {
 				ent.ChunkSize = ent.Size
 			}
+			if ent.Type == "reg" || ent.Type == "chunk" {
+				// Sizes and offsets come from the untrusted TOC. Readers advance by the
+				// chunk size, so a negative value or an empty chunk of a non-empty file
+				// would make them loop forever or slice with negative bounds.
+				if ent.Size < 0 || ent.Offset < 0 || ent.InnerOffset < 0 || ent.ChunkOffset < 0 || ent.ChunkSize < 0 ||
+					(ent.ChunkSize == 0 && (ent.Type == "chunk" || ent.Size > 0)) {
+					return fmt.Errorf("invalid size or offset in the entry %q", ent.Name)
+				}
+			}
 			if ent.Type != "chunk" {
 				var id uint32
 				var b *bolt.Bucket
